@@ -39,7 +39,8 @@ def flags():
 def S(v):
     """position-weighted sum: distinguishes permuted entries"""
     v = np.asarray(v).ravel()
-    return int(sum((i + 1) * int(a) for i, a in enumerate(v)))
+    t = sum((i + 1) * Fraction(*float(a).as_integer_ratio()) for i, a in enumerate(v))      # exact: values are dyadic
+    return int(t) if t.denominator == 1 else t
 
 
 # ------------------------------------------------------------------------------------------
@@ -129,7 +130,7 @@ def polydist_class(cuqi):
             T = []
             for a in self._attrs:
                 v = getattr(self, a)
-                T.append(int(v) if np.ndim(v) == 0 else S(v))
+                T.append(v if np.ndim(v) == 0 else S(v))
             sx = S(x)
             return sp["c"] + sum(m * t for m, t in zip(sp["m"], T)) + sp["q"] * sum(T) * sx + sp["r"] * sx * sx
 
@@ -146,6 +147,8 @@ def polydist_class(cuqi):
 def rand_vec(rng, dim):
     if rng.random() < 0.08:
         return [0] * dim               # falsy-but-legitimate: a variable fixed to exactly zero
+    if rng.random() < 0.3:
+        return [rng.randint(-18, 18) / 2 for _ in range(dim)]      # half-integers: a truncating dtype cast shows
     return [rng.randint(-9, 9) for _ in range(dim)]
 
 
@@ -401,20 +404,20 @@ class Vals(dict):
     (aliasing: the same array object reaches many objects of the history) in a random dtype / memory layout / container"""
     STYLES = ("int", "float", "strided", "list", "fortran2d")
 
-    def make_pool(self, rng, real=False):
+    def make_pool(self, rng, real=False, forced=None):
         self.pool, self.style = {}, {}
         for j, v in self.items():
             if isinstance(v, float):
                 self.pool[j] = v
                 self.style[j] = "scalar"
                 continue
-            st = rng.choice(("float", "strided") if real else self.STYLES)
+            st = forced[str(j)] if forced and str(j) in forced else rng.choice(("float", "strided") if real else self.STYLES)
             if st == "int":
                 a = np.array(v)
             elif st == "float":
                 a = np.array(v, dtype=float)
             elif st == "strided":
-                a = np.array([x for y in v for x in (y, 99)], dtype=float if real else int)[::2]
+                a = np.array([x for y in v for x in (y, 99)], dtype=float)[::2]
             elif st == "list":
                 a = list(v)
             else:
@@ -440,9 +443,12 @@ def arg_of(vals, j):
 
 def do_call(f, names, vals, call):
     if "stack" in call:
-        if call.get("stackkw"):
-            return f(stacked_input=np.array(stack_vec(vals, call["stack"])))
-        return f(np.array(stack_vec(vals, call["stack"])))
+        ref = stack_vec(vals, call["stack"])
+        buf = np.array(ref, dtype=float)
+        r = f(stacked_input=buf) if call.get("stackkw") else f(buf)
+        if list(buf) != [float(a) for a in ref]:
+            raise RuntimeError("the stacked input vector was modified by logd")
+        return r
     args = [arg_of(vals, j) for j in call["args"]]
     kw = {name_of(names, k): arg_of(vals, j) for k, j in call["kw"]}
     return f(*args, **kw)
@@ -459,6 +465,8 @@ def num(v):
     if a.size != 1:
         raise ValueError("logd returned a non-scalar of shape %s" % (a.shape,))
     x = a.ravel()[0]
+    if isinstance(x, Fraction):
+        return x
     return frac(x if isinstance(x, (int, np.integer)) else float(x))
 
 
@@ -678,8 +686,12 @@ def build_case(ctx, cuqi, strict, shape, part, style, rng, variant="joint"):
         final = o
     else:
         objs = []
+        vals = Vals(vals).make_pool(rng)
+        meta["argstyle"] = {str(k): v for k, v in vals.style.items()}
         final, obs, outs = drive(cuqi, start, names, vals, steps, evals, keep=objs)
         shared = reevaluate_earlier(objs, steps, names, vals, total) if all(ob is not None for ob in obs) else None
+        if not shared and vals.changed():
+            shared = "the argument objects passed for %s were modified by the calls" % [names[j] for j in vals.changed()]
     # ---- independent oracle: the property itself ----
     fail, sig = None, ""
     if variant != "problem" and shared:
@@ -1415,7 +1427,8 @@ def history_case(ctx, cuqi, strict, shape, kind, order, rng, variant="history"):
     if not fail and vals.changed():
         fail, sig = "the argument objects passed for %s were modified by the calls" % [names[j] for j in vals.changed() if j < len(names)], "input-mutated|history"
     meta = {"family": "poly", "variant": variant, "shape": shape, "branch": kind, "order": order, "names": names, "factors": fs,
-            "values": {str(k): v for k, v in vals.items()}, "ops": [list(op) for op in ops[:len(res)]]}
+            "values": {str(k): v for k, v in vals.items()}, "argstyle": {str(k): v for k, v in vals.style.items()},
+            "ops": [list(op) for op in ops[:len(res)]]}
     expr = "check_history %s 0%%Q %s %s" % (flags(), clist([cdens(f, vals, fvalue[f["name"]], False, alts=P.alts.get(f["name"], ())) for f in fs]),
                                            clist([chop(vals, op, r) for op, r in zip(ops, res)]))
     return Case(expr=expr, meta=meta, cell="poly/%s/%s/%s/order%d" % (variant, shape, kind, order), kind="EXACT", impl_fail=fail, signature=sig)
@@ -1499,6 +1512,53 @@ def dens_history_case(ctx, cuqi, rng, nargs):
     return Case(expr=expr, meta=meta, cell="poly/dens-history/%darg" % nargs, kind="EXACT", impl_fail=fail, signature=sig)
 
 
+def reassign_case(ctx, cuqi, shape, rng):
+    """object reuse after attribute re-assignment (oracle-level cell, no model): the user assigns a new VALUE to a mutable
+    attribute of a factor after a child was derived.  The joint holds that factor object, so it and every child derived
+    LATER follow the new value; the child derived BEFORE keeps the value it was conditioned with; re-assigning back restores."""
+    PD = polydist_class(cuqi)
+    fs, n = graph(rng, shape)
+    cand = [(k, i) for k, f in enumerate(fs) for i, sl in enumerate(f["slots"]) if sl["kind"] == "fixed"]
+    if not cand:
+        return None
+    k, i = rng.choice(cand)
+    names = rng.sample(VARNAMES, n)
+    vals = {f["name"]: rand_vec(rng, f["dim"]) for f in fs}
+    old_total = sum(factor_value_py(f, vals) for f in fs)
+    import copy as _copy
+    fs2 = _copy.deepcopy(fs)
+    fs2[k]["slots"][i]["val"] = [fs[k]["slots"][i]["val"][0] + rng.choice([-3, -2, 2, 3])]
+    new_total = sum(factor_value_py(f, vals) for f in fs2)
+    facs = [PD(f, names) for f in fs]
+    J = cuqi.distribution.JointDistribution(*facs)
+    S = rng.sample(range(n), rng.randint(1, n))
+    kw = lambda ids: {names[v]: np.array(vals[v]) for v in ids}
+    rest = [v for v in range(n) if v not in S]
+    fail = None
+    try:
+        got = []
+        A = J(**kw(S))
+        got.append(("child derived before", num(A.logd(**kw(rest))), old_total))
+        setattr(facs[k], attr_name(i), np.array(fs2[k]["slots"][i]["val"]))
+        facs[k]._spec = fs2[k]
+        got.append(("child derived before, after the re-assignment", num(A.logd(**kw(rest))), old_total))
+        got.append(("the joint after the re-assignment", num(J.logd(**kw(range(n)))), new_total))
+        B = J(**kw(S))
+        got.append(("child derived after the re-assignment", num(B.logd(**kw(rest))), new_total))
+        setattr(facs[k], attr_name(i), np.array(fs[k]["slots"][i]["val"]))
+        got.append(("the joint after assigning the old value back", num(J.logd(**kw(range(n)))), old_total))
+        got.append(("child derived in between", num(B.logd(**kw(rest))), new_total))
+        for what, v, exp in got:
+            if v != exp:
+                fail = "%s gives %s, expected %s" % (what, float(v), exp)
+                break
+    except Exception as e:
+        fail = "raised %r" % e
+    return Case(expr="true", meta={"family": "poly", "variant": "reassign", "shape": shape, "names": names, "factors": fs, "factor": k, "slot": i,
+                                   "new": fs2[k]["slots"][i]["val"], "values": {str(a): b for a, b in vals.items()}, "fixed": S},
+                cell="poly/reassign/%s" % shape, kind="DECISION", impl_fail=fail, signature="attribute-reassignment" if fail else "")
+
+
 def guarded(fn, gv, *a, **k):
     """a crash of the driver on a generated input is itself a failing input (the code raised where the builder expects none)"""
     try:
@@ -1506,7 +1566,8 @@ def guarded(fn, gv, *a, **k):
     except Exception as e:
         import traceback
         tb = traceback.format_exc()
-        c = Case(expr="false", meta={"family": "poly", "variant": "crash:" + gv, "error": tb[-1500:]}, cell="crash/" + gv,
+        c = Case(expr="false", meta={"family": "poly", "variant": "crash:" + gv, "error": tb[-1500:],
+                                     "builder": getattr(fn, "__name__", "?"), "cell_arguments": [x for x in a if isinstance(x, (str, int, bool))]}, cell="crash/" + gv,
                  kind="DECISION", impl_fail="driver raised on a well-formed input: %r" % e, signature="driver-raised|" + gv)
         return (c, None, ([], [], {}, 0, [], [])) if gv in ("joint", "prelik", "problem") else c
 
@@ -1568,6 +1629,11 @@ def run(ctx):
             if c is not None:
                 cases.append(c)
     ctx.note("branching histories per reduction branch: %s" % hist_cells)
+    for shape in HSHAPES:
+        for _ in range(ctx.n(2, 8)):
+            c = guarded(reassign_case, "reassign", ctx, cuqi, shape, rng)
+            if c is not None:
+                cases.append(c)
     for nargs in (1, 2, 3, 4):
         for _ in range(ctx.n(6, 40)):
             cases.append(guarded(dens_history_case, "dens-history", ctx, cuqi, rng, nargs))
@@ -1578,7 +1644,10 @@ def run(ctx):
         cases.append(guarded(slots_case, "slots", ctx, cuqi, rng))
     rf = guarded(real_family_cases, "real", ctx, cuqi, strict)
     cases += rf if isinstance(rf, list) else [rf]
-    bare = try_reach_bare_likelihood(cuqi)
+    try:
+        bare = try_reach_bare_likelihood(cuqi)
+    except Exception as e:
+        bare = "not run: %r" % e
     ctx.note("kinds of intermediate objects reached: %s; bare-Likelihood branch reached by public API: %s" % (
         {k: v for k, v in sorted(kinds_seen.items())}, bare))
     return Result(cases=cases, rule=RULE,
@@ -1629,18 +1698,24 @@ def real_models(cuqi, rng):
     l = cd.Gamma(2, 1.5, name="l")
     x = cd.Gaussian(np.zeros(n), lambda d: 1 / d, name="x")
     y = cd.Gaussian(lambda x: A @ x, lambda l: 1 / l, name="y", geometry=m)
-    out.append(("gauss-matrix-gamma", [d, l, x, y], {"d": pos(), "l": pos(), "x": rv(n), "y": rv(m)}))
+    out.append(("gauss-matrix-gamma", [d, l, x, y], {"d": pos(), "l": pos(), "x": rv(n), "y": rv(m)},
+                {"d": lambda v: cd.Gamma(1, 1e-1 * 10), "l": lambda v: cd.Gamma(2, 1.5),
+                 "x": lambda v: cd.Gaussian(np.zeros(n), 1 / v["d"]), "y": lambda v: cd.Gaussian(A @ v["x"], 1 / v["l"])}))
     # 2. LinearModel object as mean, GMRF prior with precision hyper-parameter, LMRF second prior
     s = cd.Gamma(2, 1, name="s")
     x2 = cd.GMRF(np.zeros(n), lambda s: s, name="x")
     y2 = cd.Gaussian(Amod, 0.25, name="y")
-    out.append(("gauss-linearmodel-gmrf", [y2, x2, s], {"s": pos(), "x": rv(n), "y": rv(m)}))
+    out.append(("gauss-linearmodel-gmrf", [y2, x2, s], {"s": pos(), "x": rv(n), "y": rv(m)},
+                {"s": lambda v: cd.Gamma(2, 1), "x": lambda v: cd.GMRF(np.zeros(n), v["s"]),
+                 "y": lambda v: cd.Gaussian(np.asarray(Amod(v["x"])), 0.25)}))
     # 3. non-linear model, LMRF prior with scale hyper-parameter, two likelihoods
     w = cd.Gamma(3, 2, name="w")
     x3 = cd.LMRF(0, lambda w: 1 / w, geometry=n, name="x")
     y3 = cd.Gaussian(nl, 0.5, name="y")
     z3 = cd.Gaussian(lambda x: A @ x + 1, lambda w: 2 / w, name="z", geometry=m)
-    out.append(("gauss-nonlinear-lmrf-2lik", [x3, y3, w, z3], {"w": pos(), "x": rv(n), "y": rv(m), "z": rv(m)}))
+    out.append(("gauss-nonlinear-lmrf-2lik", [x3, y3, w, z3], {"w": pos(), "x": rv(n), "y": rv(m), "z": rv(m)},
+                {"w": lambda v: cd.Gamma(3, 2), "x": lambda v: cd.LMRF(0, 1 / v["w"], geometry=n),
+                 "y": lambda v: cd.Gaussian(np.asarray(nl(v["x"])), 0.5), "z": lambda v: cd.Gaussian(A @ v["x"] + 1, 2 / v["w"])}))
     # 4. CMRF prior, Lognormal / Beta / InverseGamma hyper structure through 2-argument callables
     a = cd.Beta(2, 3, name="a")
     b = cd.InverseGamma(3, 0, 2, name="b")
@@ -1648,13 +1723,18 @@ def real_models(cuqi, rng):
     y4 = cd.Gaussian(lambda x, b: A @ x * b, lambda a: 0.1 + a, name="y", geometry=m)
     t = cd.Lognormal(lambda b: np.array([b, -b]), np.array([0.5, 0.75]), name="t")
     out.append(("cmrf-beta-invgamma-lognormal", [y4, t, x4, a, b],
-                {"a": round(rng.uniform(0.1, 0.9), 3), "b": pos(), "x": rv(n), "y": rv(m), "t": rv(2, 0.2, 3.0)}))
+                {"a": round(rng.uniform(0.1, 0.9), 3), "b": pos(), "x": rv(n), "y": rv(m), "t": rv(2, 0.2, 3.0)},
+                {"a": lambda v: cd.Beta(2, 3), "b": lambda v: cd.InverseGamma(3, 0, 2),
+                 "x": lambda v: cd.CMRF(0, v["a"] + v["b"], geometry=n), "y": lambda v: cd.Gaussian(A @ v["x"] * v["b"], 0.1 + v["a"]),
+                 "t": lambda v: cd.Lognormal(np.array([v["b"], -v["b"]]), np.array([0.5, 0.75]))}))
     # 5. Laplace / Cauchy / Uniform / Normal scalars
     u = cd.Uniform(0, 4, name="u")
     c = cd.Cauchy(lambda u: u, 1, name="c")
     p = cd.Laplace(lambda c: c, lambda u: 1 / (0.5 + u), name="p", geometry=1)
     q = cd.Normal(lambda p, c: p - c, 1, name="q")
-    out.append(("scalar-laplace-cauchy-uniform", [q, p, c, u], {"u": round(rng.uniform(0.5, 3.5), 3), "c": rv(1)[0], "p": rv(1)[0], "q": rv(1)[0]}))
+    out.append(("scalar-laplace-cauchy-uniform", [q, p, c, u], {"u": round(rng.uniform(0.5, 3.5), 3), "c": rv(1)[0], "p": rv(1)[0], "q": rv(1)[0]},
+                {"u": lambda v: cd.Uniform(0, 4), "c": lambda v: cd.Cauchy(v["u"], 1), "p": lambda v: cd.Laplace(v["c"], 1 / (0.5 + v["u"])),
+                 "q": lambda v: cd.Normal(v["p"] - v["c"], 1)}))
     return out
 
 
@@ -1678,8 +1758,9 @@ def real_family_cases(ctx, cuqi, strict):
     value / folded _constant is compared with the implementation BIT FOR BIT (the independent oracle uses 1e-9 relative)"""
     rng = ctx.rng
     cases = []
+    glue_diff = []
     for rep in range(ctx.n(1, 4)):
-        for label, dists, values in real_models(cuqi, rng):
+        for label, dists, values, concrete in real_models(cuqi, rng):
             names = [d_.name for d_ in dists]
             n = len(names)
             idx = {nm: i for i, nm in enumerate(names)}
@@ -1689,7 +1770,12 @@ def real_family_cases(ctx, cuqi, strict):
             for d_ in dists:
                 cv = list(d_.get_conditioning_variables())
                 fs.append({"name": idx[d_.name], "dim": int(d_.dim), "slots": [{"kind": "fn", "args": [idx[k] for k in cv]}] if cv else [{"kind": "fixed"}]})
-                fvalue[idx[d_.name]] = float(np.asarray(d_.logd(**{k: asg[k] for k in cv + [d_.name]})).ravel()[0])
+                # INDEPENDENT of the conditioning glue: a fresh unconditional distribution with the hyper-parameter values
+                # plugged in by the harness, evaluated with logpdf (no callables, no _condition, no logd)
+                fvalue[idx[d_.name]] = float(np.asarray(concrete[d_.name](asg).logpdf(asg[d_.name])).ravel()[0])
+                own = float(np.asarray(d_.logd(**{k: asg[k] for k in cv + [d_.name]})).ravel()[0])
+                if own != fvalue[idx[d_.name]]:
+                    glue_diff.append((label, d_.name, own, fvalue[idx[d_.name]]))
             # the stacked view hands every variable to the user's callables as a 1-d array: hierarchies whose callables are
             # written for scalars only cannot be evaluated through it at all (not judged), the others get the stacked ops
             try:
@@ -1704,8 +1790,11 @@ def real_family_cases(ctx, cuqi, strict):
                     if P is None:
                         continue
                     start = cuqi.distribution.JointDistribution(*dists)
-                    res = run_history(cuqi, start, names, vals, P.ops, dists)
+                    pvals = Vals(vals).make_pool(rng, real=True)
+                    res = run_history(cuqi, start, names, pvals, P.ops, dists)
                     fail, sig = history_oracle(P.ops, res, P.total, rel=1e-9)
+                    if not fail and pvals.changed():
+                        fail, sig = "argument arrays were modified by the calls", "input-mutated"
                     if sig and sig != SIG_POST_KW:
                         sig = sig + "|real|" + label
 
@@ -1723,6 +1812,10 @@ def real_family_cases(ctx, cuqi, strict):
                     meta = {"family": "real", "label": label, "branch": kind, "order": order,
                             "values": {k: np.asarray(v).tolist() for k, v in values.items()}, "ops": [list(op) for op in P.ops[:len(res)]]}
                     cases.append(Case(expr=expr, meta=meta, cell="real/%s/%s/order%d" % (label, kind, order), kind="EXACT", impl_fail=fail, signature=sig))
+    for label, nm, own, ref in glue_diff:
+        cases.append(Case(expr="false", meta={"family": "real", "label": label, "factor": nm, "own_logd": own, "reference": ref}, cell="real/%s/factor-value" % label,
+                          kind="EXACT", impl_fail="factor %s of %s: its own conditional logd at the complete assignment gives %r, the unconditional distribution with the "
+                          "values plugged in gives %r" % (nm, label, own, ref), signature="factor-logd|real|%s" % label))
     return cases
 
 
@@ -1746,6 +1839,8 @@ def _rebuild(ctx, m):
     names = m["names"]
     fs = m["factors"]
     vals = {int(k): v for k, v in m["values"].items()}
+    if m.get("argstyle"):
+        vals = Vals(vals).make_pool(__import__("random").Random(0), forced=m["argstyle"])
     pre = m.get("pre", [])
     dists = {f["name"]: PD(f, names) for f in fs}
     facs = [dists[f["name"]](**{names[f["name"]]: np.array(vals[f["name"]])}) if f["name"] in pre else dists[f["name"]] for f in fs]
